@@ -204,6 +204,8 @@ class MultiWorld:
         self.violations = []
         self.harness_errors = []
         self.pending = set()
+        self.loop_t0 = {}
+        self.loop_of = {}
 
     def viol(self, oracle, sig, detail, **f):
         self.violations.append({'property': 'C15', 'oracle': oracle, 'signature': sig, 'detail': detail, 'features': f,
@@ -224,6 +226,8 @@ class MultiWorld:
         loop = asyncio.get_running_loop()
         spec = self.prog['loops'][li]
         t0 = loop.time()
+        self.loop_t0[loop.sim_id] = t0
+        self.loop_of[loop.sim_id] = li
         tasks = []
         for ci, c in enumerate(spec['calls']):
             due = t0 + c['at']
@@ -266,6 +270,14 @@ class MultiWorld:
             ths = [sch.spawn(partial(self.run_loop, li), f'loop{li}') for li in range(len(self.prog['loops']))]
             sch.join(ths)
 
+    def per_loop_trace(self):
+        """{program loop index: [[keys of the batch, start relative to that loop's first call], ...]}"""
+        out = {}
+        for b in self.batches:
+            li = self.loop_of.get(b['loop'])
+            out.setdefault(li, []).append([[k for k, _ in b['items']], b['t'] - self.loop_t0.get(b['loop'], 0.0)])
+        return out
+
     def judge(self, end):
         for e in self.harness_errors:
             self.violations.append({'property': 'HARNESS', 'oracle': 'harness.error', 'signature': 'harness error',
@@ -288,7 +300,7 @@ class MultiWorld:
                           mode=self.prog['mode'])
 
 
-def run_multi(prog, sspec):
+def run_multi(prog, sspec, solo_of=None):
     aa, _ = env.aiuti()
     sch = S.Sched(seed=sspec.get('seed', 0), strategy=sspec.get('strategy', ('sticky', 0.1)),
                   switches=sspec.get('switches'), strict=sspec.get('strict', True),
@@ -318,6 +330,22 @@ def run_multi(prog, sspec):
                 L.close()
             except Exception:
                 pass
+    trace = w.per_loop_trace()
+    if solo_of is not None:
+        return trace.get(0, [])
+    if end == 'normal' and not w.violations and len(prog['loops']) > 1:
+        # "each loop getting its own independent batching": what a loop's callers see must not depend on the other
+        # loops -- compare every loop's batches (contents, instants relative to its start) with a run of that loop alone
+        for li in range(len(prog['loops'])):
+            solo = json.loads(json.dumps(prog))
+            solo['loops'] = [prog['loops'][li]]
+            solo['mode'] = 'successive'
+            alone = run_multi(solo, {'seed': 0, 'strategy': ('sticky', 0.0)}, solo_of=li)
+            if alone != trace.get(li, []):
+                w.viol('deco.multiloop_not_independent', "a loop's batching depends on the other loops using the decorated function",
+                       f'mode {prog["mode"]}, options {prog["opts"]}: loop {li} alone batches as {alone}, together with the others as '
+                       f'{trace.get(li, [])}', mode=prog['mode'])
+                break
     return {'end': end, 'violations': w.violations, 'digest': sch.digest(), 'steps': sch.step, 'vtime': sch.clock,
             'switches': [list(x) for x in sch.switch_log], 'nswitch': sch.nswitch, 'nswitch_traced': sch.nswitch_traced,
             'edges': sch.edges, 'faults': {'multi.' + prog['mode']: 1},
